@@ -436,6 +436,8 @@ class Exec:
             k_ = s.ev(st, e.slice); arr = s.lelem(st.heap, o)
             s.oblige(st, f'key-present[{ast.unparse(e)}]@{e.lineno}', Select(arr, k_.t) != 0, 'safety')
             return SV(Select(arr, k_.t), o.ty.arg)
+        if o.ty.kind == 'ref' and o.ty.arg in s.p.classes and not isinstance(e.slice, ast.Slice) and s.p.method(o.ty.arg, '__getitem__')[1] is not None:
+            c_, m_ = s.p.method(o.ty.arg, '__getitem__'); return s.call(st, m_, [o, s.ev(st, e.slice)], owner=c_)
         if o.ty.kind != 'list': raise Unsupported(f'subscript on {o.ty}')
         n = s.llen(st.heap, o); arr = s.lelem(st.heap, o)
         if isinstance(e.slice, ast.Slice):
@@ -525,6 +527,8 @@ class Exec:
                 v = s.ev(st, e.args[0])
                 if v.ty.kind == 'list': return SV(s.llen(st.heap, v), INT)
                 if v.ty == STR: return SV(s.str_len(v.t), INT)
+                if v.ty.kind == 'ref' and v.ty.arg in s.p.classes and s.p.method(v.ty.arg, '__len__')[1] is not None:
+                    c_, m_ = s.p.method(v.ty.arg, '__len__'); return s.call(st, m_, [v], owner=c_)
                 raise Unsupported(f'len of {v.ty}')
             if n == 'isinstance' and isinstance(e.args[1], ast.Attribute) and 'IsT' not in s.spec.ufuns and e.args[1].attr in s.p.classes:
                 e = ast.Call(func=e.func, args=[e.args[0], ast.copy_location(ast.Name(id=e.args[1].attr, ctx=ast.Load()), e.args[1])], keywords=[])      # module.Class
@@ -638,6 +642,10 @@ class Exec:
             if isinstance(fn.value, ast.Name) and fn.value.id == 'cls' and 'cls' in st.env and isinstance(st.env['cls'], str):
                 cls = st.env['cls']; raise Unsupported('cls.method')
             o = s.ev(st, fn.value)
+            if o.ty.kind == 'ref' and o.ty.arg in s.p.classes and len(e.args) == 1 and not e.keywords and s.p.field_ty(o.ty.arg, fn.attr) == IARR:
+                a_ = s.ev(st, e.args[0])       # a field that holds a one-argument function: an arbitrary total function (ghost array), like a callable parameter
+                s.oblige(st, f'nonnull[{ast.unparse(fn.value)}]@{e.lineno}', o.t != 0, 'safety')
+                return SV(Select(s.read(st, o.t, o.ty.arg, fn.attr).t, a_.t), Ref('object'))
             if o.ty.kind == 'ref' and o.ty.arg in s.p.classes and not e.args and (s.p.field_ty(o.ty.arg, fn.attr) or Ty('x')).kind == 'thunk':
                 fty = s.p.field_ty(o.ty.arg, fn.attr)
                 return SV(s.read(st, o.t, o.ty.arg, fn.attr).t, fty.arg)
